@@ -227,6 +227,9 @@ const (
 	// Sub-domain where RFC 7541 does not fix the decoder's verdict; the
 	// reference stops there.
 	c02StExclMidUpdate = "excluded:size-update-after-a-field"
+	// Detached contexts only (see c02RefDec.detached): the block refers to the
+	// dynamic table or resizes it, and the table is not defined there.
+	c02StExclDetached = "excluded:dynamic-table-after-a-rejected-block"
 )
 
 func c02StIsError(st string) bool {
@@ -234,7 +237,7 @@ func c02StIsError(st string) bool {
 }
 
 func c02StExcluded(st string) bool {
-	return st == c02StExclMidUpdate
+	return st == c02StExclMidUpdate || st == c02StExclDetached
 }
 
 // c02RefDec is the reference decoding context: the dynamic table (newest entry
@@ -245,6 +248,19 @@ type c02RefDec struct {
 	size    uint64
 	maxSize uint64
 	allowed uint64
+	// detached: the context of a header block that follows a REJECTED block.
+	// RFC 7541 defines no dynamic table state after a decoding error, so the
+	// block is decoded on its own: static-table references and literals are
+	// defined, any reference to a dynamic table index (> 61) and any dynamic
+	// table size update end the comparison (c02StExclDetached). Entries the
+	// block itself adds are not tracked either.
+	detached bool
+}
+
+// c02NewDetachedRefDec returns the context for a block that follows a rejected
+// block: nothing of what went before is visible to it.
+func c02NewDetachedRefDec() *c02RefDec {
+	return &c02RefDec{detached: true}
 }
 
 func c02NewRefDec(maxSize uint64) *c02RefDec {
@@ -437,6 +453,9 @@ func (r *c02RefDec) Block(b []byte) c02RefBlock {
 			if !ok {
 				return fail(c02StTruncated, "index")
 			}
+			if r.detached && idx > 61 {
+				return fail(c02StExclDetached, fmt.Sprintf("indexed %d", idx))
+			}
 			f, ok := r.lookup(idx)
 			if !ok {
 				return fail(c02StBadIndex, fmt.Sprintf("indexed %d with %d dynamic entries", idx, len(r.dyn)))
@@ -454,6 +473,9 @@ func (r *c02RefDec) Block(b []byte) c02RefBlock {
 		} else if b3, _ := br.bits(1); b3 == 1 {
 			// §6.3 dynamic table size update  001; §4.2 allows several of them
 			// at the beginning of a block
+			if r.detached {
+				return fail(c02StExclDetached, "table size update")
+			}
 			if sawField {
 				return fail(c02StExclMidUpdate, "")
 			}
@@ -485,6 +507,9 @@ func (r *c02RefDec) Block(b []byte) c02RefBlock {
 		}
 		var f c02RefField
 		if idx != 0 {
+			if r.detached && idx > 61 {
+				return fail(c02StExclDetached, fmt.Sprintf("name index %d", idx))
+			}
 			e, ok := r.lookup(idx)
 			if !ok {
 				return fail(c02StBadIndex, fmt.Sprintf("name index %d with %d dynamic entries", idx, len(r.dyn)))
@@ -506,7 +531,7 @@ func (r *c02RefDec) Block(b []byte) c02RefBlock {
 		}
 		f.Value = s
 		f.Sensitive = never
-		if incremental {
+		if incremental && !r.detached {
 			before := len(r.dyn)
 			r.add(f)
 			if len(r.dyn) <= before {
